@@ -365,7 +365,10 @@ class Runner:
             if "C10" in props:
                 self._check_schedule(res, plan, it_before, int(state.iteration_count), snaps, new_snaps)
             if "C07" in props:
+                self._last_rows = None
                 self._check_td(res, plan, bufs, snaps, new_snaps, log, gamma, expected_pos)
+                if cls["algo"] == "DQN" and self._last_rows is not None:
+                    self._check_direct_train(res, plan, algo, state, new_snaps, gamma, op["key"])
             snaps = new_snaps
             f = faults.get(oi)
             if f is not None and n > 1 and "C12" in props:
@@ -523,6 +526,7 @@ class Runner:
                 res.probes["td_skipped_argmax_tie"] += 1
                 return
             ref_q, ref_loss, targets = dqn_reference_step(old["q"], old["qt"], rows, gamma, self.sgd_lr, qb)
+            self._last_rows = rows
             if qb is not None:
                 res.events["E.q_depends_on_policy_state"] += 1
             got = new["q"]
@@ -592,6 +596,27 @@ class Runner:
                 break
         else:
             res.ok("C07", "actor_step_leaves_critics")
+            res.ok("C07", "targets_not_trained")
+
+    def _check_direct_train(self, res, plan, algo, state, snaps, gamma, key_int):
+        """The public `DQN.train(policy, opt_state, buffer, key=...)` entry point (the policy itself serves as target network):
+        the TD target is a constant for the optimiser there as well — one semi-gradient SGD step of the reference."""
+        if getattr(self, "_jtrain", None) is None:
+            self._jtrain = eqx.filter_jit(lambda a, p, o, b, k: a.train(p, o, b, key=k))
+        rows = self._last_rows
+        qb = plan["policy"].get("qbias")
+        q = snaps["q"]
+        if argmax_gap(q, rows, qb) < 1e-3:
+            return
+        new_policy, _, _ = self._jtrain(algo, state.policy, state.opt_state, state.step_state.buffer, jr.key(key_int ^ 0x2F2F))
+        got = np.asarray(jax.device_get(new_policy.q), dtype=np.float64)
+        ref_q, _, _ = dqn_reference_step(q, q, rows, gamma, self.sgd_lr, qb)
+        scale = max(1.0, float(np.max(np.abs(ref_q))))
+        res.events["E.direct_train_call"] += 1
+        if not np.allclose(got, ref_q, rtol=0, atol=3e-5 * scale):
+            bad = np.argwhere(np.abs(got - ref_q) > 3e-5 * scale)[0]
+            res.fail("C07", "targets_not_trained", "direct_train_step_is_not_the_semi_gradient_step", entry=[int(bad[0]), int(bad[1])], got=float(got[tuple(bad)]), expected=float(ref_q[tuple(bad)]))
+        else:
             res.ok("C07", "targets_not_trained")
 
     def _dqn_cause(self, old, rows, gamma, got, scale, qbias=None):
